@@ -5,8 +5,8 @@ Specs:    specs/ThreadCalls.tla      Abs layer = the property (Issue / Run guard
           specs/ThreadCallsImpl.tla  the algorithm as coded (threadCallQueue, snapshot drain, self-pipe waker,
                                      Check / Block / Wake); TLC: safety, refinement of Abs, liveness Issue ~> Ran
                                      under fairness of the reactor only; without wakeUp() liveness must fail
-          specs/ThreadCallsAio.tla   the asyncio reactor's algorithm (call_soon_threadsafe -> callLater(0) -> heapq), under a
-                                     strictly increasing and under a coarse clock (informational; never a verdict)
+          (specs/ThreadCallsAio.tla: model of the asyncio reactor's former callLater(0)-based callFromThread, kept as the
+           record of the repaired ordering defect; not part of the check any more)
           specs/ThreadCallsTrace.tla trace validation of real reactor runs
 Binding:  harness/adapters/c13_driver.py, one subprocess per reactor run (select, poll, epoll, asyncio),
           1..16 real threads issuing callFromThread with seeded pause patterns; the trace is what the reactor
@@ -20,7 +20,7 @@ import sys
 
 META = dict(
     id="C13",
-    specs=["ThreadCalls.tla", "ThreadCallsMC.tla", "ThreadCallsImpl.tla", "ThreadCallsImplMC.tla", "ThreadCallsAio.tla", "ThreadCallsAioMC.tla", "ThreadCallsTrace.tla"],
+    specs=["ThreadCalls.tla", "ThreadCallsMC.tla", "ThreadCallsImpl.tla", "ThreadCallsImplMC.tla", "ThreadCallsTrace.tla"],
     technique="TLA+ Abs spec of callFromThread (exactly once / per-producer order / reactor thread / promptness) checked exhaustively; Impl spec of threadCallQueue + snapshot drain + self-pipe waker checked by TLC for safety, refinement of Abs and liveness (Issue ~> Ran under reactor fairness only; the model without wakeUp must violate it); TLC trace validation of genuinely concurrent runs of the real select/poll/epoll/asyncio reactors",
     level_text="TLC checks on the design that every issued call runs exactly once, in per-producer order, and is eventually run without help from unrelated events (liveness across the Check/Block window), for 1-2 producers x <=2-3 calls exhaustively; every recorded run of the four real reactors with 1..16 producer threads is validated by TLC as a behaviour of the Abs specification (all logged fields matched, no call lost, idle-issued calls within the promptness bound).",
     level_note="Trusted: TLC, CPython threads, the driver's logging (thread identity, callback arguments, monotonic clock). Real concurrency is sampled under OS scheduling, not enumerated. Promptness is a 5 s bound against 'sleeps until an unrelated event' (none exists in the runs). Not decided: behaviour at reactor shutdown, calls issued before run().",
@@ -41,12 +41,17 @@ def py():
 
 # --------------------------------------------------------------------------- scripts
 
-def gen_scripts(rng, shape, nthreads, ncalls):
-    """Producer scripts: per producer a list of [kind, usec] (see c13_driver.py)."""
+def gen_scripts(rng, shape, nthreads, ncalls, raising=0.0):
+    """Producer scripts: per producer a list of [kind, usec] or [kind, usec, 1] (the callable raises); see c13_driver.py."""
     out = []
     for _ in range(nthreads):
         s = []
         n = max(1, int(ncalls * rng.uniform(0.6, 1.0)))
+        if shape == "stress":          # long tight bursts of all producers, each followed by idle-latency probes
+            for _round in range(2):
+                s += [[0, 0] for _k in range(n // 2)]
+                s += [[1, rng.randint(2000, 20000)] for _k in range(2)]
+            n = 0
         for _k in range(n):
             r = rng.random()
             if shape == "probe":       # mostly idle probes: the reactor sleeps between calls
@@ -74,6 +79,10 @@ def gen_scripts(rng, shape, nthreads, ncalls):
                     s.append([0, rng.randint(1000, 5000)])
                 else:
                     s.append([1, rng.randint(2000, 15000)])
+        if raising:
+            for e in s:
+                if rng.random() < raising:
+                    e.append(1)
         out.append(s)
     return out
 
@@ -99,15 +108,22 @@ def plan(ctx):
             # callbacks that block for a moment / a short interpreter switch interval: producers enqueue while the
             # reactor is in the middle of a drain
             yld = 0 if shape == "probe" else rng.choice([0, 2, 3, 7])
+            # some of the issued callables raise (every run but the first of a reactor has a few)
+            raising = 0.0 if k == 0 else rng.choice([0.02, 0.1, 0.3])
             cfgs.append(dict(reactor=reactor, clock="real", timer=3600 if rng.random() < 0.3 else 0,
-                             shape=shape, producers=gen_scripts(rng, shape, nt, nc), cb_yield=yld,
+                             shape=shape, producers=gen_scripts(rng, shape, nt, nc, raising), cb_yield=yld,
                              switch_us=rng.choice([0, 0, 200, 1000])))
+        # heavy multi-producer traffic, then calls issued while the reactor is idle (is it still woken?)
+        for k in range(ctx.pick(1, 4)):
+            cfgs.append(dict(reactor=reactor, clock="real", timer=3600 if k % 2 else 0, shape="stress",
+                             producers=gen_scripts(rng, "stress", 8, ctx.pick(1000, 4000), 0.01 if k % 2 else 0.0),
+                             cb_yield=0, switch_us=rng.choice([0, 200])))
         # a platform whose clock has 1 ms granularity (time.time() may be that coarse)
         for k in range(ctx.pick(1, 6)):
             shape = ["burst", "mixed", "window"][k % 3]
             nt = rng.randint(2, 8)
             cfgs.append(dict(reactor=reactor, clock="ms", timer=0, shape=shape, cb_yield=rng.choice([0, 3]), switch_us=0,
-                             producers=gen_scripts(rng, shape, nt, ctx.pick(60, 400))))
+                             producers=gen_scripts(rng, shape, nt, ctx.pick(60, 400), rng.choice([0.0, 0.1]))))
     for c in cfgs:
         c["lat_unit_ms"] = LAT_UNIT_MS
         c["grace_ms"] = GRACE_MS
@@ -134,7 +150,8 @@ def run_one(cfg, repo_src):
         raise MachineryError("driver imported twisted from %s" % res["twisted"])
     n = [len(s) for s in cfg["producers"]] + [1]
     return {"cfg": {"n": n, "reactor": cfg["reactor"], "clock": cfg["clock"], "timer": cfg["timer"], "shape": cfg["shape"],
-                    "cb_yield": cfg.get("cb_yield", 0), "switch_us": cfg.get("switch_us", 0), "reactor_class": res["reactor_class"]},
+                    "cb_yield": cfg.get("cb_yield", 0), "switch_us": cfg.get("switch_us", 0),
+                    "raising_calls": sum(1 for s in cfg["producers"] for e in s if len(e) > 2), "reactor_class": res["reactor_class"]},
             "ev": res["ev"], "stuck": res["stuck"], "stderr": p.stderr[-400:]}
 
 
@@ -247,15 +264,7 @@ def model_checks(ctx):
         return {}
     must_fail(ctx.mc("ThreadCallsImplMC", "ThreadCallsImplReach.cfg", must_pass=False,
                      label="vacuity: enqueue inside the Check/Block window reachable"), "invariant", "Impl window reachability")
-    # the asyncio reactor's own algorithm (Impl layer, informational): does it keep per-producer order?
-    aio = {}
-    for clock, cfg in (("strict", "ThreadCallsAioStrict.cfg"), ("coarse", "ThreadCallsAioCoarse.cfg")):
-        r = ctx.mc("ThreadCallsAioMC", cfg, must_pass=False, label="Impl (asyncio callFromThread), %s clock" % clock)
-        if not r.ok and r.kind != "invariant":
-            raise MachineryError("ThreadCallsAio/%s: %s\n%s" % (cfg, r.error, r.out[-1500:]))
-        aio[clock] = "per-producer order, exactly-once hold" if r.ok else "violated: " + r.error.splitlines()[0][:160]
-    ctx.extra["asyncio_algorithm_model"] = aio
-    return aio
+    return {}
 
 
 def report(ctx, traces, rej, cfgs):
@@ -277,7 +286,7 @@ def run(ctx):
     # real runs need no TLC: start them first, model-check meanwhile
     with ThreadPoolExecutor(1) as bg:
         fut = bg.submit(run_all, ctx, cfgs)
-        aio = model_checks(ctx) or {}
+        model_checks(ctx)
         traces = fut.result()
     order = sorted(range(len(traces)), key=lambda k: len(traces[k]["ev"]))      # small ones first (evidence samples)
     traces = [traces[k] for k in order]
@@ -298,14 +307,6 @@ def run(ctx):
     rej = ctx.validate("ThreadCallsTrace", slim, shard_size=max(1, (len(slim) + nsh - 1) // nsh))
     report(ctx, traces, rej, cfgs)
     bad = {x.idx for x in rej}
-    # a counterexample of the asyncio Impl model counts only if the real reactor reproduces it (it is then reported above
-    # through trace validation); a model counterexample the code does not reproduce is model drift, not a finding
-    reproduced = any(traces[k]["cfg"]["reactor"] == "asyncio" and classify(traces[k], x.reached) == "per-thread-order"
-                     for x in rej for k in [x.idx])
-    for clock, res in aio.items():
-        if res.startswith("violated") and not reproduced:
-            ctx.impl_drift += 1
-    ctx.extra["asyncio_model_counterexample_reproduced_on_real_reactor"] = bool(reproduced)
     good = [t for k, t in enumerate(slim) if k not in bad and len(t["ev"]) <= 3000]
     ctx.selftest_rejects("ThreadCallsTrace", good * 4, mutate, n=ctx.pick(14, 40))
 
